@@ -784,6 +784,83 @@ func runKMS(o *hlib.Out, rng *hlib.Rng, mut bool) {
 			o.Count("kms/unsupported-dek-template-accepted")
 		}
 	}
+	// 6. objects whose constructor could not report its error (NewKMSEnvelopeAEAD2 has no error result
+	// and is documented to "always fail" afterwards): every call on them, in particular Decrypt on
+	// WELL-FORMED envelopes, returns an error and never panics (C02: no input makes Decrypt panic).
+	misconfigured(o, rng)
+}
+
+var supportedDEK = map[string]bool{urlGCM: true, urlGCMSIV: true, urlCTRHMAC: true, urlChaCha: true, urlXChaCha: true}
+
+func misconfigured(o *hlib.Out, rng *hlib.Rng) {
+	k := newKEK(rng)
+	k.nextLen = 48
+	good := aead.NewKMSEnvelopeAEAD2(dekTemplate(randSpec(rng, dekFams[0], 2), tinkpb.OutputPrefixType_RAW), k)
+	var inputs [][]byte
+	for i := 0; i < 3; i++ {
+		ct, err := good.Encrypt(rng.Bytes(i*17), rng.Bytes(i))
+		if err != nil {
+			panic(err)
+		}
+		inputs = append(inputs, ct)
+	}
+	for _, n := range []int{1, 2, 12, 4096} {
+		b := append([]byte{0, 0, byte(n >> 8), byte(n)}, rng.Bytes(n+rng.Intn(40))...)
+		inputs = append(inputs, b)
+	}
+	inputs = append(inputs, nil, []byte{}, []byte{0, 0, 0, 1}, rng.Bytes(5), rng.Bytes(64))
+	var bad []*tinkpb.KeyTemplate
+	for salt := 8; salt <= 12; salt += 4 {
+		bad = append(bad, dekTemplate(pspec{fam: "xaes", salt: salt}, tinkpb.OutputPrefixType_RAW))
+	}
+	if kt, err := aead.CreateKMSEnvelopeAEADKeyTemplate("stub-kms://x", aead.AES128GCMKeyTemplate()); err == nil {
+		bad = append(bad, kt)
+	}
+	bad = append(bad,
+		&tinkpb.KeyTemplate{TypeUrl: "type.googleapis.com/google.crypto.tink.HmacKey", OutputPrefixType: tinkpb.OutputPrefixType_RAW},
+		&tinkpb.KeyTemplate{TypeUrl: "type.googleapis.com/google.crypto.tink.NoSuchKey", Value: rng.Bytes(9), OutputPrefixType: tinkpb.OutputPrefixType_RAW},
+		&tinkpb.KeyTemplate{TypeUrl: "", OutputPrefixType: tinkpb.OutputPrefixType_RAW},
+		&tinkpb.KeyTemplate{TypeUrl: aead.AES128GCMKeyTemplate().TypeUrl, Value: rng.Bytes(7), OutputPrefixType: tinkpb.OutputPrefixType_RAW},
+		&tinkpb.KeyTemplate{TypeUrl: aead.AES128GCMKeyTemplate().TypeUrl, Value: nil, OutputPrefixType: tinkpb.OutputPrefixType_RAW},
+	)
+	for ti, t := range bad {
+		o.Case()
+		desc := fmt.Sprintf("misconfigured NewKMSEnvelopeAEAD2 #%d dek=%q", ti, t.GetTypeUrl())
+		a := aead.NewKMSEnvelopeAEAD2(t, k)
+		var encErr error
+		var encCT []byte
+		if p := hlib.Recover(func() { encCT, encErr = a.Encrypt([]byte("x"), nil) }); p != "" {
+			o.Violate("KMS envelope Encrypt panicked (%s): %s", desc, p)
+			continue
+		}
+		if encErr == nil {
+			// the template was usable after all: then the object must work
+			var pt []byte
+			var err error
+			if p := hlib.Recover(func() { pt, err = a.Decrypt(encCT, nil) }); p != "" || err != nil || string(pt) != "x" {
+				o.Violate("KMS envelope object accepts Encrypt but does not decrypt its own output (%s): panic=%q err=%v", desc, p, err)
+			}
+			o.Count("kms/misconfigured/usable")
+			continue
+		}
+		for _, in := range inputs {
+			var pt []byte
+			var err error
+			p := hlib.Recover(func() { pt, err = a.Decrypt(in, nil) })
+			switch {
+			case p != "":
+				o.Violate("KMS envelope Decrypt panicked on a %d-byte input (%s) ct=%s: %s", len(in), desc, hlib.Tok(in), p)
+			case err == nil && !supportedDEK[t.GetTypeUrl()]:
+				// the constructor documents that an object with an unsupported DEK type "always fails"
+				o.Violate("KMS envelope Decrypt succeeded on an object with an unsupported DEK key type (%s) ct=%s pt=%s", desc, hlib.Tok(in), hlib.Tok(pt))
+			case err == nil:
+				// supported type, unusable key format: only key generation (Encrypt) needs the format
+				o.Count("kms/misconfigured/decrypt-ok-supported-type")
+			default:
+				o.Count("kms/misconfigured/decrypt-refused")
+			}
+		}
+	}
 }
 
 func fakeKMSCase(o *hlib.Out, rng *hlib.Rng, s pspec) {
